@@ -14,6 +14,7 @@ import Bita.Proofs.SpecChunks
 import Bita.Proofs.ChunkRule
 import Bita.Proofs.ChunkStream
 import Bita.Proofs.ReaderEnv
+import Bita.Proofs.Alloc
 
 namespace Bita.Props.C15
 open Bita Bita.Spec
@@ -77,6 +78,23 @@ theorem accepted_archive_scan_is_bounded (H : Bytes → Bytes) (features : List 
   scan_is_bounded a.config
     ((accepted_iff_valid a.config).1 (Proofs.tryInit_ok_facts H features read a h).1) data script hc
 
+/-- **T2 (bounded allocation, local header read).**  Whatever size an unverified pre-header declares
+and however the reads come in, every capacity `IoReader::read_at` asks the allocator for is at
+most the bytes the file has actually delivered plus `MAX_PREALLOCATE` (1 MiB), and never more than
+`size`.  The bound holds because both `min(.., MAX_PREALLOCATE)` guards are in the source
+(`Gen.ioInitialCapacityBounded`, `Gen.ioGrowBounded`, read on every run; F8.k12 repair). -/
+theorem local_header_read_allocation_bounded (file : Bytes) (offset size : Nat) (script : List ReadEv) :
+    ∀ e ∈ ioReadAtCaps file offset size script,
+      e.1 ≤ e.2 + Gen.ioMaxPreallocate ∧ e.2 ≤ file.length - offset ∧ e.1 ≤ size :=
+  Proofs.io_read_at_allocation_bounded file offset size script
+
+/-- **T2 (bounded buffering, remote header read).**  Whatever the server sends for a header read of
+`size` bytes - any number of body frames of any sizes, an endless body - `single_fail` buffers at
+most `size` plus one frame (the stop condition `>=` is read from the source; F10 repair). -/
+theorem remote_header_read_buffering_bounded (size : Nat) (frames : List Nat) :
+    httpSingleTake size 0 frames ≤ size + Proofs.maxFrame frames :=
+  Proofs.http_read_at_take_bounded size frames
+
 /-- **T3.**  For *any* server behaviour (any bytes of any length for any range: surplus bytes,
 empty bodies, error pages), any failure script, any retry budget, and chunks of stored size ≥ 1
 (enforced at open), the HTTP chunk reader's stream contains no panic item - no underflow of the
@@ -116,5 +134,14 @@ example :
 /-- a RollSum window larger than the maximum chunk size is accepted, and valid -/
 example : configAccepted (.rollsum ⟨2, 0, 3, 8⟩) = true ∧ (Config.rollsum ⟨2, 0, 3, 8⟩).Valid ∧
     configAccepted (.buzhash ⟨2, 0, 3, 8⟩) = false := by decide
+
+/-- a 100-byte file whose pre-header declares 2^62 bytes: the capacities asked for stay at 1 MiB
+beyond the delivered bytes; an endless body of 16381-byte frames for a 14-byte read: one frame is
+taken -/
+example :
+    ioReadAtCaps (List.replicate 100 7) 14 (2 ^ 62) [.bytes 60, .bytes 60, .bytes 60] =
+      [(1048576, 0)] ∧
+    httpSingleTake 14 0 (List.replicate 1000 16381) = 16381 := by
+  decide +kernel
 
 end Bita.Props.C15
